@@ -64,6 +64,7 @@ func runC13(c *Ctx) {
 		"C13.c SGR mouse reports decode to the same button, column, row and press/release/motion",
 		"C13.d gating truth table over modes 1000/1002/1003/1006/1007/alternate screen for press, release, wheel, drag and motion, in both directions; paste brackets only under 2004 and they decode to PasteStart/PasteEnd",
 		"C13.e DECSET/DECRST 1,1000,1002,1003,1006,1007,1049,2004 and ESC = / ESC > change exactly the flag they name",
+		"C13.g every parameter of a compound DECSET/DECRST is processed: for every parameter number x the mode handler knows (discovered by evaluating it on a sentinel) and every decided mode b, CSI ? x;b h/l leaves the decided flags exactly as CSI ? x h/l followed by CSI ? b h/l does, from start states with the other flags all set and all clear",
 		"C13.f chords with one unambiguous legacy encoding round-trip: Enter/Tab/Esc/Backspace/Space, printable ASCII (with Shift for capitals), Ctrl+a..z except h/i/m, Alt+a..z and Alt+0..9; the Ctrl/Alt chords also with Key.Text set (associated text), and Alt+Shift+letter with text (decoding to the chord or to its legacy form Alt+capital)",
 	}
 	c.NotDec = []string{
@@ -83,6 +84,7 @@ func runC13(c *Ctx) {
 	c.expect("C13.d", 16)
 	c.expect("C13.e", 18)
 	c.expect("C13.f", 230)
+	c.expect("C13.g", 18)
 
 	x := c13Setup(c)
 	if x == nil {
@@ -94,6 +96,7 @@ func runC13(c *Ctx) {
 	x.ruleD()
 	x.ruleE()
 	x.ruleF()
+	x.ruleG()
 }
 
 // ------------------------------------------------------------------ set-up
@@ -1209,6 +1212,100 @@ func (x *c13Env) ruleE() {
 	}
 	check("term.(*Model).update/ESC = sets deckpam", c13Tok{kind: "ESC", r: '='}, false, "deckpam", true, nil)
 	check("term.(*Model).update/ESC > resets deckpam", c13Tok{kind: "ESC", r: '>'}, true, "deckpam", false, nil)
+}
+
+// ------------------------------------------------------------------ C13.g
+
+// ruleG: a compound private-mode sequence is the composition of its parameters. A `return`
+// (or any other exit) from the per-parameter loop in the arm of one parameter silently drops
+// the parameters after it, so the child's "disable mouse / paste" never reaches the flags and
+// Update keeps writing reports the child turned off.
+func (x *c13Env) ruleG() {
+	decided := []struct {
+		n    int
+		flag string
+	}{{1, "decckm"}, {1000, "mouseButtons"}, {1002, "mouseDrag"}, {1003, "mouseMotion"}, {1006, "mouseSGR"}, {1007, "altScroll"}, {1049, "smcup"}, {2004, "paste"}}
+	const sentinel = 987654
+	mk := func(final rune, ps ...int) c13Tok {
+		t := c13Tok{kind: "CSI", r: final, inter: []rune{'?'}}
+		for _, p := range ps {
+			t.params = append(t.params, []int{p})
+		}
+		return t
+	}
+	for _, final := range []rune{'h', 'l'} {
+		name := map[rune]string{'h': "DECSET", 'l': "DECRST"}[final]
+		// the parameter alphabet of the handler
+		x.m.probeOn, x.m.probeTag, x.m.probeCases = true, sentinel, map[int64]bool{}
+		pr := x.run(x.fnPty, x.model(nil), x.seqV(mk(final, sentinel)))
+		x.m.probeOn = false
+		if pr.undecided != "" {
+			x.c.undecided("C13.g", "term.(*Model).update/"+name+" of an unknown parameter", x.fnPty.Decl.Pos(), "%s", pr.undecided)
+			continue
+		}
+		alpha := map[int]bool{sentinel: true}
+		for v := range x.m.probeCases {
+			alpha[int(v)] = true
+		}
+		for _, d := range decided {
+			alpha[d.n] = true
+		}
+		var xs []int
+		for v := range alpha {
+			xs = append(xs, v)
+		}
+		sort.Ints(xs)
+		for _, first := range xs {
+			v := &c13Verdict{}
+			label := fmt.Sprint(first)
+			if first == sentinel {
+				label = "<unknown number>"
+			}
+			for _, d := range decided {
+				if d.n == first {
+					continue
+				}
+				for _, othersSet := range []bool{false, true} {
+					flags := map[string]bool{}
+					for _, f := range c13Flags {
+						flags[f] = othersSet
+					}
+					flags[d.flag] = final == 'l' // the flag b must change
+					cs := fmt.Sprintf("%s;%d from %s", label, d.n, c13FlagString(flags))
+					v.n++
+					comp := x.run(x.fnPty, x.model(flags), x.seqV(mk(final, first, d.n)))
+					s1 := x.run(x.fnPty, x.model(flags), x.seqV(mk(final, first)))
+					if s1.undecided != "" || s1.panicked != "" {
+						// the evaluator cannot follow this parameter on its own: outside the decided domain
+						v.n--
+						continue
+					}
+					s2 := x.run(x.fnPty, s1.recv, x.seqV(mk(final, d.n)))
+					switch {
+					case comp.undecided != "" || s2.undecided != "":
+						v.unk("%s: %s%s", cs, comp.undecided, s2.undecided)
+					case comp.panicked != "" || s2.panicked != "":
+						v.fail("%s: update panics: %s%s", cs, comp.panicked, s2.panicked)
+					default:
+						want, got := x.observe(s2.recv), x.observe(comp.recv)
+						wf, gf := x.flagsOf(s2.recv), x.flagsOf(comp.recv)
+						if b, ok := wf[d.flag]; !ok || b != (final == 'h') {
+							v.unk("%s: the single sequence CSI ? %d %c does not give a computable %s", cs, d.n, final, d.flag)
+						} else if got != want {
+							v.fail("CSI ? %s %c leaves %s=%v where CSI ? %s %c then CSI ? %d %c gives %v: a parameter after %s is not processed (compound: %s; one by one: %s)",
+								strings.Replace(cs, " from ", " ", 1), final, d.flag, gf[d.flag], label, final, d.n, final, wf[d.flag], label, got, want)
+						}
+					}
+				}
+			}
+			if v.n == 0 {
+				x.c.info("C13.g: %s parameter %s is outside what the evaluator can follow on its own; not part of the compound-sequence domain", name, label)
+				continue
+			}
+			x.emit("C13.g", fmt.Sprintf("term.(*Model).update/%s %s;<decided mode>: the parameter after it is processed", name, label), x.fnPty, v,
+				"compound sequence = the parameters one by one on every decided flag")
+		}
+	}
 }
 
 // ------------------------------------------------------------------ C13.f
